@@ -285,7 +285,7 @@ class Composition(Loggable):
                     f"or increase the adapter's delay."
                 )
 
-        chain[comp] = None
+        chain[comp] = (None, False)
 
         if isinstance(comp, ITimeComponent):
             target_time = comp.next_time
@@ -312,6 +312,9 @@ class Composition(Loggable):
                 )
             return comp
 
+        # a component without time step is done once its dependencies are served:
+        # it is no longer part of the active chain (it may be reached again on another path)
+        del chain[comp]
         return None
 
     def _collect_adapters(self):
